@@ -37,7 +37,7 @@ def _graph_cases(tier):
 def _keys(tier):
     L = 3 if tier == "quick" else 4
     seen = set()
-    for k in itertools.chain(A.key_strings(A.KEY_SYMBOLS_REALISTIC, L), A.word_forms(A.KEY_WORDS, A.KEY_SYMBOLS_REALISTIC)):
+    for k in itertools.chain(A.key_strings(A.KEY_SYMBOLS_REALISTIC, L), A.word_forms(A.KEY_WORDS, A.KEY_SYMBOLS_REALISTIC), A.KEYWORD_CASES):
         if k not in seen and A.realistic_key(k):
             seen.add(k)
             yield k
@@ -123,6 +123,8 @@ def _shape(case):
         for w in A.KEY_WORDS:
             if w in k:
                 toks.append("word:" + w)
+        if not toks and k in A.KEYWORD_CASES:
+            toks.append("kw:" + k)
         if not toks:
             toks = ["sym:" + ("sp" if c == " " else c) for c in sorted(set(k))]
         return toks
